@@ -65,7 +65,7 @@ def main() -> None:
         })
     m = {
         "version": 1,
-        "setup_cmd": "cd lean && lake build",
+        "setup_cmd": "./setup.sh",
         "hooks": {
             "guard": "PYNENC_VERIF",
             "enable": "no source hooks: every yield point, clock and stand-in is installed by monkey-patching from /verif/harness (checks export PYNENC_VERIF=1 for uniformity)",
